@@ -175,6 +175,14 @@ def build_files(ctx):
         'pragma solidity ^0.8.4;\ncontract G1 { address o1; modifier onlyOwner() { require(msg.sender == o1); _; } function kill() external onlyOwner { selfdestruct(payable(o1)); } }\n'
         'contract G2 { function kill() external { selfdestruct(payable(address(0))); } fallback() external { selfdestruct(payable(address(0))); } }\n'
         'contract G3 { address o3; function kill() external { require(msg.sender == o3, "no"); selfdestruct(payable(o3)); } fallback() external { } }\n',
+        'pragma solidity ^0.8.4;\ncontract Registry { address owner; modifier auth() { require(msg.sender == owner, "no"); _; } function kill() external auth { selfdestruct(payable(owner)); } }\n'
+        'contract Timelock { uint delay; modifier auth() { require(delay > 0, "no"); _; } function kill() external auth { selfdestruct(payable(address(0))); } }\n',
+        'pragma solidity ^0.8.4;\ncontract Timelock { uint delay; modifier auth() { require(delay > 0, "no"); _; } function kill() external auth { selfdestruct(payable(address(0))); } }\n'
+        'contract Registry { address owner; modifier auth() { require(msg.sender == owner, "no"); _; } function kill() external auth { selfdestruct(payable(owner)); } }\n',
+        'struct Point { uint128 x; uint256 y; uint128 z; }\npragma solidity 0.8.13;\ncontract Vault { function d(uint amount) public { require(amount > 0, "amount is zero"); } }\n'
+        'library Late { function e(uint amount) internal { require(amount > 1, "this message is definitely longer than thirty-two bytes"); } }\n',
+        'contract First { struct Order { uint128 a; uint256 b; uint128 c; } }\npragma solidity 0.7.6;\ncontract Second { struct Order { uint128 a; uint128 c; uint256 b; } '
+        'function g(uint z) public { require(z > 0, "this message is definitely longer than thirty-two bytes"); } }\n',
         'pragma solidity ^0.8.4;\ncontract G2 { function kill() external { selfdestruct(payable(address(0))); } }\n'
         'contract G1 { address o1; modifier onlyOwner() { require(msg.sender == o1); _; } function kill() external onlyOwner { selfdestruct(payable(o1)); } }\n',
     ]
